@@ -89,6 +89,12 @@ def run(ctx):
     _aut6 = _a6()
     rule_product(ctx, _G6(_aut6), _aut6, rid="R06.11")
 
+    # ------------------------------------------------------------------ R06.12 (= R15.4)
+    from .c15 import rule_action_preconditions
+    from ..smgraph import Graph as _G, automaton as _aut
+    _a = _aut()
+    rule_action_preconditions(ctx, idx, _G(_a), _a, rid="R06.12")
+
     ctx.not_decided += ["equality of event logs under handler sets H and H ∪ O as such (relation between two runs)"]
     return ("Rules on the hand-over between the tag scanner and the lexer: type-driven bookmark completeness, reset of sticky per-tag scratch on "
             "every continuing exit of finish_tag_name (CFG dominance), the stale-hint-flag protocol and once-per-tag tree-builder feedback.")
